@@ -1358,15 +1358,15 @@ func auparseFamily(ctx *Ctx) error {
 				c.Expect = map[string]string{"arch": an, "syscall": tbl[n], "result": "success", "exit": "0", "exe": "/x"}
 				run(c, n%7 == 0, true, "table:syscall")
 			}
-			// numbers that are a table entry with something added (the x32 bit 0x40000000, the sign bit, 2^32, an
-			// offset): they name nothing, the number is reported as it is
+			// numbers that are a table entry with something added (the x32 bit 0x40000000, another bit, an offset;
+			// within the kernel's int): they name nothing, the number is reported as it is
 			for i, n := range nums {
-				for k, d := range []int{n | 0x40000000, n | 0x80000000, n + 1<<32, n + 512, n + 1024, n + 4096, n | 0x20000000, -n - 1} {
-					if _, named := tbl[d]; named || (i+k)%3 != 0 && !ctx.Thorough() {
+				for k, d := range []int64{int64(n) | 0x40000000, int64(n) + 512, int64(n) + 1024, int64(n) + 4096, int64(n) | 0x20000000, -int64(n) - 1} {
+					if _, named := tbl[int(d)]; (named && int64(int(d)) == d) || (i+k)%3 != 0 && !ctx.Thorough() {
 						continue
 					}
 					c := mkACase("data", 1300, fmt.Sprintf("audit(1.000:1): arch=%x syscall=%d success=yes exit=0 exe=\"/x\"", code, d))
-					c.Expect = map[string]string{"arch": an, "syscall": strconv.Itoa(d), "exe": "/x"}
+					c.Expect = map[string]string{"arch": an, "syscall": strconv.FormatInt(d, 10), "exe": "/x"}
 					run(c, (i+k)%21 == 0, true, "table:syscall-derived")
 				}
 			}
